@@ -1826,17 +1826,54 @@ class ForAll(QuantifiedConditional):
 
     def get_all_candidate_solutions(self, sources: Dict[int, HashedValue]):
         values_that_satisfy_condition = []
+        seen_solutions = set()
         # Evaluate the condition under this particular universal value
         for condition_val in self.condition._evaluate__(sources, parent=self):
             if condition_val.is_false:
                 continue
-            condition_val_bindings = {
-                k: v
-                for k, v in condition_val.bindings.items()
-                if k in self.condition_unique_variable_ids
-            }
-            values_that_satisfy_condition.append(condition_val_bindings)
+            # a branch of a disjunction binds only the variables it mentions, a candidate solution is an assignment of
+            # all the (non-universal) variables of the condition.
+            for bindings in self._bind_remaining_condition_variables_(
+                condition_val.bindings
+            ):
+                condition_val_bindings = {
+                    k: v
+                    for k, v in bindings.items()
+                    if k in self.condition_unique_variable_ids
+                }
+                solution_key = tuple(
+                    (k, condition_val_bindings[k].id_)
+                    for k in sorted(condition_val_bindings)
+                )
+                if solution_key in seen_solutions:
+                    continue
+                seen_solutions.add(solution_key)
+                values_that_satisfy_condition.append(condition_val_bindings)
         return values_that_satisfy_condition
+
+    def _bind_remaining_condition_variables_(
+        self, bindings: Dict[int, HashedValue]
+    ) -> Iterable[Dict[int, HashedValue]]:
+        """
+        Yield the extensions of the bindings that bind every (non-universal) variable of the condition.
+
+        :param bindings: Bindings that satisfy the condition, possibly without some of the condition's variables.
+        """
+        unbound_variable = next(
+            (
+                v
+                for v in self.condition._all_variable_instances_
+                if v._id_ in self.condition_unique_variable_ids
+                and v._id_ not in bindings
+                and v._domain_
+            ),
+            None,
+        )
+        if unbound_variable is None:
+            yield bindings
+            return
+        for value in unbound_variable._evaluate__(bindings, parent=self):
+            yield from self._bind_remaining_condition_variables_(value.bindings)
 
     def evaluate_condition(self, sources: Dict[int, HashedValue]) -> bool:
         for condition_val in self.condition._evaluate__(sources, parent=self):
